@@ -2112,6 +2112,15 @@ class DiskObjectStore(PackBasedObjectStore):
         data_path = pack._data_path
         idx_path = pack._idx_path
         pack.close()
+        # A multi-pack-index that still names this pack would send lookups
+        # (ours and git's: "failed to load pack entry") to a file that is
+        # gone. It is only an accelerator; drop it before the pack.
+        midx_path = os.path.join(self.pack_dir, "multi-pack-index")
+        if os.path.exists(midx_path):
+            if self._midx is not None:
+                self._midx.close()
+                self._midx = None
+            _remove_readonly(midx_path)
         _remove_readonly(data_path)
         if os.path.exists(idx_path):
             _remove_readonly(idx_path)
